@@ -60,7 +60,7 @@ TKReturn ==
   /\ (objs'[fobj].cls = "ok") = (Ev.cls = "ok")
   /\ CASE Ev.i = 0 -> msg' = "CONVERGED"
        [] Ev.i > 0 -> msg' = "MAX. ITERATION REACHED, NOT CONVERGED"
-       [] OTHER -> msg' \notin {"MAX. ITERATION REACHED, NOT CONVERGED"}
+       [] OTHER -> (msg' = "Error in solver" \/ (msg' = msg /\ msg # ""))
 
 (* steps that leave no record *)
 TSilent ==
@@ -122,9 +122,13 @@ InvTable == <<
   <<"ObsP7", ObsP7>> >>
 Failed == {InvTable[i][1] : i \in {j \in 1..Len(InvTable) : ~InvTable[j][2]}}
 
+(* TLC chooses what was not logged; a branch whose final state disagrees    *)
+(* with what the caller observed is not the recorded execution, so          *)
+(* properties of returned states are judged on agreeing final states only   *)
+FailedNow == IF pc = "returned" /\ ~Complete THEN {} ELSE Failed
 Accept ==
-  /\ IF Failed # {}
-     THEN TLCSet(3, TLCGet(3) \cup {<<tid, f>> : f \in Failed}) ELSE TRUE
+  /\ IF FailedNow # {}
+     THEN TLCSet(3, TLCGet(3) \cup {<<tid, f>> : f \in FailedNow}) ELSE TRUE
   /\ IF Complete THEN TLCSet(1, TLCGet(1) \cup {tid}) ELSE TRUE
   /\ IF Diag /\ l > TLCGet(2)[1]
      THEN TLCSet(2, <<l, [pc |-> pc, kpc |-> kpc, msg |-> msg, l2 |-> l2,
